@@ -22,12 +22,15 @@ import traceback
 
 
 class CaseResult:
-    __slots__ = ("failures", "nontrivial", "tags")
+    __slots__ = ("failures", "nontrivial", "tags", "evals", "sub_nontrivial", "counts")
 
     def __init__(self):
         self.failures = []  # [(bucket, detail)]
         self.nontrivial = False
         self.tags = []
+        self.evals = 1  # inputs judged inside this case (enumerating cases set it)
+        self.sub_nontrivial = 0  # distinct non-trivial inputs enumerated inside this case
+        self.counts = {}  # bulk counters
 
     def fail(self, bucket, detail=""):
         detail = str(detail)
@@ -226,6 +229,7 @@ class Collector:
         self.prefix = prefix
         self.result = new_job_result()
         self._hashes = set()
+        self._sub_seen = set()
         self._buckets = {}  # bucket -> (size, case, detail)
         self._bucket_hits = {}
         self.max_samples = max_samples
@@ -233,9 +237,16 @@ class Collector:
 
     def record(self, case, res):
         r = self.result
-        r["evaluations"] += 1
+        r["evaluations"] += res.evals
         for t in res.tags:
             bump(r["counters"], t)
+        for k, v in res.counts.items():
+            bump(r["counters"], k, v)
+        if res.sub_nontrivial:
+            h = case_hash(case)
+            if h not in self._sub_seen:
+                self._sub_seen.add(h)
+                r["nontrivial_count"] = r.get("nontrivial_count", 0) + res.sub_nontrivial
         if res.nontrivial:
             h = case_hash(case)
             if h not in self._hashes:
